@@ -29,8 +29,22 @@ def runs(case):
     return [
         {'src': D + X, 'opts': o, 'multi': False, 'want_toks': False},
         {'src': X, 'opts': dict(o, defs=D), 'multi': False, 'want_toks': False},
-        {'src': inp + X, 'opts': o, 'multi': False, 'files': {'d.tex': D}, 'want_toks': False},
+        {'src': inp + X, 'opts': o, 'multi': False, 'want_toks': False,
+         'files': {'d.tex': {'hex': D.encode(case['enc']).hex()} if case.get('enc') else D}},
     ]
+
+def enc_cases(rng):
+    """the input encoding of the run applies to every file the filter reads: definitions holding non-ASCII characters,
+    supplied in the document, as --defs text, and in an \\LTinput file stored in that encoding"""
+    out = []
+    for enc in ('latin-1', 'cp1252', 'iso-8859-15', 'utf-8', 'utf-16'):
+        for _ in range(3):
+            w = ['Q' + ''.join(rng.choice('abcdefghijklmnop') for _ in range(4)) for _ in range(4)]
+            body = rng.choice(['Stra\u00dfe', 'caf\u00e9', '\u00fcber', 'na\u00efve', 'A\u00f1o'])
+            D = rng.choice(['\\newcommand{\\zzenc}[1]{%s %s #1}\n', '\\def\\zzenc#1{#1 %s %s}\n']) % (w[0], body)
+            X = '%s \\zzenc{%s} %s\n' % (w[1], w[2], w[3])
+            out.append({'D': D, 'X': X, 'ast': None, 'enc': enc, 'opts': {'pack': '*', 'lang': rng.choice(['', 'de']), 'ienc': enc}})
+    return out
 
 def run_one(case):
     return [t2t.run_case(c) for c in runs(case)]
@@ -56,6 +70,8 @@ def judge(case, rs):
     if a['txt'].strip() and not a['txt'].lstrip('\n').startswith(b['txt'].lstrip('\n')[:5]):
         fails.append('definition lines leave text')
     # substitution semantics
+    if case.get('ast') is None:
+        return fails
     try:
         exp = sem.evaluate(case['ast'])
     except sem.Unsupported:
@@ -70,22 +86,25 @@ def judge(case, rs):
 def run(ctx):
     n = ctx.scale(500, 12000)
     rng = ctx.rng
-    cases = [make_case(rng) for _ in range(n)]
+    cases = [make_case(rng) for _ in range(n)] + enc_cases(rng)
     ctx.stats['_rule'] = ('sets of 1-4 non-recursive definitions (\\newcommand/\\renewcommand with 0-3 parameters and optional default, \\def) and '
                           'documents using them at any nesting depth, before and after the definitions; three supply routes (in document, --defs, '
                           '\\LTinput); non-trivial = at least one use of a defined macro')
     results = ctx.pmap(run_one, cases)
     flat_c, flat_r = [], []
     for c, rs in zip(cases, results):
-        uses = c['X'].count('\\m') + c['X'].count('\\d')
+        uses = c['X'].count('\\m') + c['X'].count('\\d') + c['X'].count('\\zzenc')
         ctx.case((c['D'], c['X']), nontrivial=uses > 0)
         ctx.count('outcome_' + '/'.join(r['outcome'] for r in rs))
         fails = judge(c, rs)
         if fails:
-            ctx.violation(fails[0], D=c['D'], X=c['X'], opts=c['opts'], src=c['D'] + c['X'])
+            ctx.violation(fails[0], D=c['D'], X=c['X'], opts=c['opts'], src=c['D'] + c['X'], enc=c.get('enc'))
         if len(ctx.samples) < 3:
             ctx.sample({'D': c['D'], 'X': c['X'][:200], 'out': rs[1].get('txt', '')[:200]})
         for cc, rr in zip(runs(c), rs):
+            if c.get('enc'):
+                ctx.count('input_encoding_' + c['enc'])
+                cc = dict(cc, files={'d.tex': c['D']} if cc.get('files') else None)     # the model reads decoded text
             flat_c.append(cc); flat_r.append(rr)
     corr.t2t(ctx, flat_c, flat_r, proj=('outcome', 'text'), limit=ctx.scale(1200, 20000))
     # uses before the definition are unknown; a (re)definition affects later uses only
@@ -191,7 +210,7 @@ def judge_witness(w):
             wa = [x for x, _ in semrun.out_words(ra['txt'])]; wb = [x for x, _ in semrun.out_words(rb['txt'])]
             return [] if wa == wb else ['words %r, with the file pasted in place %r' % (wa, wb)]
         return []
-    c = {'D': w['D'], 'X': w['X'], 'opts': w.get('opts') or {}, 'ast': {'t': 'seq', 'items': []}}
+    c = {'D': w['D'], 'X': w['X'], 'opts': w.get('opts') or {}, 'ast': {'t': 'seq', 'items': []}, 'enc': w.get('enc')}
     return [f for f in judge(c, run_one(c)) if 'substitution' not in f]
 
 def replay(data):
